@@ -1,4 +1,5 @@
 import AkVerif.Lemmas.GhistReport
+import AkVerif.Lemmas.GhistTotal
 /-!
 # C06 — the history report attributes every matching commit to the right build per branch
 
@@ -279,6 +280,34 @@ theorem at_most_once :
             exact hfb.disj a1 a2 hmem1 hmem2 hna hnb hne r1 hr1 hr2
 
 end
+
+/-! ## totality -/
+
+/-- the report is always produced: on a history numbered in topological order whose refs point to existing commits
+the model never runs into one of the code's `KeyError`s / assertions and never out of fuel (component plug: any
+plug that does not raise; `Plug.none` for a single repository) -/
+theorem report_total {π β} (h : Hist π) (hT : h.Topo) (pl : Plug π β) (hpl : PlugTotal pl)
+    (hrefs : ∀ r ∈ h.refs, r.2 < h.commits.length) : ∃ rep, report h pl = .ok rep := by
+  have hheads : ∀ b ∈ branchesOf h, b.head < h.commits.length := by
+    intro b hb
+    have hb' := (mem_sortBy _ _ _).mp hb
+    simp only [releaseBranches, List.mem_flatMap] at hb'
+    obtain ⟨r, hr, hbr⟩ := hb'
+    have : b.head = r.2 := by
+      simp only [releaseBranch, List.mem_append] at hbr
+      rcases hbr with h1 | h1
+      · split at h1
+        · simp at h1; rw [h1]
+        · cases h1
+      · split at h1
+        · simp at h1; rw [h1]
+        · cases h1
+    rw [this]; exact hrefs r hr
+  obtain ⟨g, hg⟩ := rgraph_total hT hpl hheads
+  exact ⟨g.branches.map (repBranch g.rcs), by simp only [report, hg]⟩
+
+theorem report_total_single (h : Hist Unit) (hT : h.Topo) (hrefs : ∀ r ∈ h.refs, r.2 < h.commits.length) :
+    ∃ rep, report h Plug.none = .ok rep := report_total h hT Plug.none plugTotal_none hrefs
 
 /-! ## Non-vacuity: a concrete history (merge, two branches, head of the second inside the first) evaluated by the
 kernel — the hypotheses `Hist.Topo` and `report … = .ok …` are satisfiable and the report is not empty. -/
